@@ -134,29 +134,32 @@ theorem equal_iff_superset_and_subset (rs : List Rel) :
 
 /-! ## Wildcard patterns -/
 
-/-
-  Full statement (false of the unchanged code, see the two counterexamples):
-    ∀ s t, validate s → validate t → hasWildcard t = false →
-      patCompare s t = CpeSpec.globMatches s t
--/
-
 /-- `patCompare` is the glob semantics of the matching specification (`*` any
-    sequence, `?` one character or none, case-insensitive) for every source
-    value string that `validate` accepts and every target, when neither has a
-    quoted character. -/
-theorem pattern_matches_spec_partial (s t : Str) (hv : validate s = true) (hs : 92 ∉ s) (ht : 92 ∉ t) :
+    sequence of characters, `?` one character or none, a quoted character `\x`
+    is the one character `x` in the pattern and in the target, case-insensitive)
+    for every source value string that `validate` accepts and every target
+    string.  (Before /repo 41df6e98 this failed for quoted characters: a quoted
+    character of the target counted as two for `?`, and a quoted `\*`/`\?` at
+    the end of the pattern was stripped as a wildcard.) -/
+theorem pattern_matches_spec (s t : Str) (hv : validate s = true) :
     patCompare s t = CpeSpec.globMatches s t :=
-  patCompare_eq_spec s t hs ht (validate_coreClean s hv hs)
+  patCompare_eq_spec s t hv
 
 /-- The same at the level of `Compare`: a set source with a wildcard against a
     set target without one is SUPERSET exactly when the pattern matches, else
-    DISJOINT (values without quoted characters). -/
-theorem compare_pattern_partial (s t : Value) (hs : s.kind = .set) (ht : t.kind = .set)
-    (hsw : hasWildcard s.v = true) (htw : hasWildcard t.v = false) (hv : validate s.v = true)
-    (h1 : 92 ∉ s.v) (h2 : 92 ∉ t.v) :
+    DISJOINT. -/
+theorem compare_pattern (s t : Value) (hs : s.kind = .set) (ht : t.kind = .set)
+    (hsw : hasWildcard s.v = true) (htw : hasWildcard t.v = false) (hv : validate s.v = true) :
     cmpAttr s t = if CpeSpec.globMatches s.v t.v then .superset else .disjoint := by
-  rw [cmpAttr_eq_spec, ← pattern_matches_spec_partial s.v t.v hv h1 h2]
+  rw [cmpAttr_eq_spec, ← pattern_matches_spec s.v t.v hv]
   simp [specAttr, CpeSpec.attrOut, hs, ht, hsw, htw]
+
+/-- A source that `validate` rejects is outside the theorem: in `a?*` the
+    question mark is not at an end, `patCompare` takes it literally. -/
+theorem pattern_invalid_source_counterexample :
+    validate [97, 63, 42] = false ∧ patCompare [97, 63, 42] [97, 98] = false ∧
+      CpeSpec.globMatches [97, 63, 42] [97, 98] = true := by
+  decide
 
 /-- A set source without wildcard against a set target without wildcard is
     EQUAL exactly when the two strings are equal up to ASCII case. -/
@@ -170,18 +173,12 @@ theorem compare_plain (s t : Value) (hs : s.kind = .set) (ht : t.kind = .set)
 example : patCompare [63, 111, 111, 42] [70, 111, 111, 98, 97, 114] = true := by decide
 example : validate [63, 111, 111, 42] = true := by decide
 
-/-- A quoted character of the target counts as two for `?`: `1?` does not
-    match `1\.` although `?` stands for the one character `.`. -/
-theorem pattern_quoted_width_counterexample :
-    patCompare [49, 63] [49, 92, 46] = false ∧ CpeSpec.globMatches [49, 63] [49, 92, 46] = true := by
-  decide
-
-/-- A quoted special character at the end of the source is stripped as if it
-    were a wildcard: `*a\*` matches `a\.b`. -/
-theorem pattern_quoted_trailing_counterexample :
-    patCompare [42, 97, 92, 42] [97, 92, 46, 98] = true ∧
-      CpeSpec.globMatches [42, 97, 92, 42] [97, 92, 46, 98] = false := by
-  decide
+/-- The witnesses of the two defects repaired by /repo 41df6e98: `1?` matches
+    `1\.` (the quoted period is one character), `*a\*` does not match `a\.b`
+    (the pattern ends in a literal asterisk) and does match `xa\*`. -/
+example : patCompare [49, 63] [49, 92, 46] = true := by decide
+example : patCompare [42, 97, 92, 42] [97, 92, 46, 98] = false := by decide
+example : patCompare [42, 97, 92, 42] [120, 97, 92, 42] = true := by decide
 
 /-! ## Binding and unbinding -/
 
